@@ -66,6 +66,11 @@ impl TypeDependencyGraph {
         let mut sorted = Vec::new();
         let mut visited = HashSet::new();
         let mut visiting = HashSet::new();
+        #[cfg(feature = "verif-hooks")]
+        let types_owned: Vec<String> =
+            crate::verif_hooks::permute("S5.roots", types.iter().cloned().collect(), |s| s.clone());
+        #[cfg(feature = "verif-hooks")]
+        let types = &types_owned;
 
         for type_name in types {
             if !visited.contains(type_name) {
@@ -101,6 +106,13 @@ impl TypeDependencyGraph {
 
         // Visit dependencies first
         if let Some(deps) = self.dependencies.get(type_name) {
+            #[cfg(feature = "verif-hooks")]
+            let deps_owned: Vec<String> =
+                crate::verif_hooks::permute("S6.deps", deps.iter().cloned().collect(), |s| {
+                    s.clone()
+                });
+            #[cfg(feature = "verif-hooks")]
+            let deps = &deps_owned;
             for dep in deps {
                 self.topological_visit(dep, sorted, visited, visiting);
             }
